@@ -104,3 +104,46 @@ func TestReplayDistSessionStaleRecord(t *testing.T) {
 		runHistory(t, f, []pools.Op{alloc(0), release(0), alloc(2), alloc(1), op(pools.OpReload, 0, 0, k*0x9e3779b97f4a7c15)}, runOpt{checkStats: true, failAt: 2})
 	}
 }
+
+// Secondary mutators, one minimal history each (regressions of the leak/miscount shapes the generated search is
+// meant to find: they fail with the same signatures if such a defect appears).
+func TestReplayDHCP4ServerSecondary(t *testing.T) {
+	cfg := pools.DHCP4Cfg{V4Net: pools.V4Net{CIDR: "10.66.0.0/29", Gateway: "10.66.0.1", Class: "replay"}}
+	d := func(k pools.D4Kind, s, tt, c, v int) pools.D4Op { return pools.D4Op{K: k, S: s, T: tt, C: c, V: v} }
+	lease0 := []pools.D4Op{d(pools.D4Discover, 0, 0, 0, 0), d(pools.D4Request, 0, 0, 0, 0)} // s0: DISCOVER, REQUEST of its offer
+	for _, ops := range [][]pools.D4Op{
+		// replacement CPE s1 DISCOVERs (own offer), then takes over s0's circuit: s1's offer must go back to the pool
+		append(append([]pools.D4Op{}, lease0...), d(pools.D4Reassign, 0, 0, 0, 0)),
+		// replacement CPE that holds nothing
+		append(append([]pools.D4Op{}, lease0...), d(pools.D4Reassign, 0, 0, 0, 1)),
+		// DECLINE of the lease, then of an offer; the declined addresses stay out of service
+		append(append([]pools.D4Op{}, lease0...), d(pools.D4Decline, 0, 0, 0, 0), d(pools.D4Discover, 1, 0, 0, 0), d(pools.D4Decline, 0, 0, 1, 0)),
+		// an offer given up, twice
+		{d(pools.D4Discover, 2, 0, 0, 0), d(pools.D4GiveUpOffer, 2, 0, 0, 0), d(pools.D4GiveUpOffer, 2, 0, 0, 0)},
+		// REQUEST for a free address by a client that holds a different offer (refused: nothing may change), then for
+		// somebody else's address, then for the network address
+		{d(pools.D4Discover, 0, 0, 0, 0), d(pools.D4Request, 0, 0, 9, 4), d(pools.D4Discover, 1, 0, 0, 0), d(pools.D4Request, 0, 1, 5, 1), d(pools.D4Request, 0, 0, 7, 0)},
+		// lease released, address claimed back by index by another client (INIT-REBOOT)
+		append(append([]pools.D4Op{}, lease0...), d(pools.D4Release, 0, 0, 0, 0), d(pools.D4Request, 1, 0, 9, 1)),
+	} {
+		_, res, _ := d4History(t, cfg, ops)
+		t.Log(res.ops)
+	}
+}
+
+// DHCPv6 Decline (address quarantined), the peer pool's HTTP API, and the second allocation entry points.
+func TestReplayOtherSecondary(t *testing.T) {
+	decline := func(s int) pools.Op { return op(pools.OpDecline, s, 0, 1) }
+	allocAlt := func(s int) pools.Op { return op(pools.OpAllocAlt, s, 0, 1) }
+	releaseAlt := func(s int) pools.Op { return op(pools.OpReleaseAlt, s, 0, 1) }
+	runHistory(t, pools.V6AddrFactory("2001:db8::/125", "replay"), []pools.Op{alloc(0), alloc(1), decline(0), alloc(0), decline(2), release(1)}, runOpt{checkStats: true})
+	runHistory(t, pools.PeerFactory("10.0.0.0/29", "10.0.0.1", "replay"), []pools.Op{allocAlt(0), alloc(0), alloc(1), releaseAlt(1), releaseAlt(1), release(0), allocAlt(2)}, runOpt{checkStats: true})
+	runHistory(t, pools.DistFactory("10.0.0.0/30", 32, false, 0, true, "replay", nil), []pools.Op{allocAlt(0), alloc(0), release(0), allocAlt(1)}, runOpt{checkStats: true})
+	runHistory(t, pools.PoolAllocFactory("2001:db8::/62", 64, "replay", false), []pools.Op{allocAlt(0), alloc(0), allocAlt(1), release(0), allocAlt(0)}, runOpt{checkStats: true})
+	runHistory(t, pools.LocalFactory("10.0.0.0/30", 32, "replay"), []pools.Op{allocAlt(0), alloc(0), release(0), allocAlt(1)}, runOpt{checkStats: true})
+	// the rollback of each second entry point after a failed save
+	for _, f := range []pools.Factory{pools.DistFactory("10.0.0.0/24", 32, false, 0, false, "replay", nil), pools.PoolAllocFactory("10.0.0.0/24", 32, "replay", true)} {
+		runHistory(t, f, []pools.Op{allocAlt(0), alloc(1)}, runOpt{checkStats: true, failAt: 1})
+		runHistory(t, f, []pools.Op{alloc(0), allocAlt(0)}, runOpt{checkStats: true, failAt: 2})
+	}
+}
